@@ -97,8 +97,8 @@ scalar_value:
 	| NULL_P						{ $$ = ast.NewConst(ast.ConstNull) }
 	| TRUE_P						{ $$ = ast.NewConst(ast.ConstTrue) }
 	| FALSE_P						{ $$ = ast.NewConst(ast.ConstFalse) }
-	| NUMERIC_P						{ $$ = ast.NewNumeric($1) }
-	| INT_P							{ $$ = ast.NewInteger($1) }
+	| NUMERIC_P						{ $$ = newNumeric(pathlex, $1) }
+	| INT_P							{ $$ = newInteger(pathlex, $1) }
 	| VARIABLE_P					{ $$ = ast.NewVariable($1) }
 	;
 
@@ -126,22 +126,9 @@ predicate:
 									{ $$ = ast.NewUnary(ast.UnaryIsUnknown, $2) }
 	| expr STARTS_P WITH_P starts_with_initial
 									{ $$ = ast.NewBinary(ast.BinaryStartsWith, $1, $4) }
-	| expr LIKE_REGEX_P STRING_P
-	{
-		var err error
-		$$, err = ast.NewRegex($1, $3, "")
-		if err != nil {
-			pathlex.Error(err.Error())
-		}
-	}
+	| expr LIKE_REGEX_P STRING_P			{ $$ = newRegex(pathlex, $1, $3, "") }
 	| expr LIKE_REGEX_P STRING_P FLAG_P STRING_P
-	{
-		var err error
-		$$, err = ast.NewRegex($1, $3, $5)
-		if err != nil {
-			pathlex.Error(err.Error())
-		}
-	}
+									{ $$ = newRegex(pathlex, $1, $3, $5) }
 	;
 
 starts_with_initial:
@@ -220,6 +207,7 @@ accessor_op:
 				$$ = ast.NewBinary(ast.BinaryDecimal, $4[0], $4[1])
 			default:
 				pathlex.Error("invalid input syntax: .decimal() can only have an optional precision[,scale]")
+				$$ = ast.NewBinary(ast.BinaryDecimal, nil, nil)
 			}
 		}
 	| '.' DATE_P '(' ')' { $$ = ast.NewUnary(ast.UnaryDate, nil) }
@@ -237,11 +225,11 @@ accessor_op:
 
 csv_elem:
 	INT_P
-		{ $$ = ast.NewInteger($1) }
+		{ $$ = newInteger(pathlex, $1) }
 	| '+' INT_P %prec UMINUS
-		{ $$ = ast.NewUnaryOrNumber(ast.UnaryPlus, ast.NewInteger($2)) }
+		{ $$ = ast.NewUnaryOrNumber(ast.UnaryPlus, newInteger(pathlex, $2)) }
 	| '-' INT_P %prec UMINUS
-		{ $$ = ast.NewUnaryOrNumber(ast.UnaryMinus, ast.NewInteger($2)) }
+		{ $$ = ast.NewUnaryOrNumber(ast.UnaryMinus, newInteger(pathlex, $2)) }
 	;
 
 csv_list:
@@ -255,7 +243,7 @@ opt_csv_list:
 	;
 
 datetime_precision:
-	INT_P							{ $$ = ast.NewInteger($1) }
+	INT_P							{ $$ = newInteger(pathlex, $1) }
 	;
 
 opt_datetime_precision:
